@@ -144,16 +144,19 @@ func TestC07Stream(t *testing.T) {
 			c.Report(rt, "C07|stream|more-messages-than-frames", fmt.Sprintf("%s: %d messages were delivered beyond the conformant frames, the script has only %d rejected frames", desc, extras, rej), rep)
 			return
 		}
+		if len(errs) > 0 {
+			// the stream has chosen to treat a malformed frame as a failure of the connection and said so on
+			// Error: that is a way of not crashing and not wedging, and after a failure complete frames may go
+			// undelivered (C10 allows that) - nothing more to judge in this script
+			c.Excluded("stream published an error for a malformed frame")
+			return
+		}
 		missing := 0
 		for _, n := range want {
 			missing += n
 		}
 		if missing > 0 {
 			c.Report(rt, "C07|stream|wedged-after-rejected-frames", fmt.Sprintf("%s: %d conformant frames were not delivered within %s (timed out: %v, errors %v)", desc, missing, lossWait, timedOut, errs), rep)
-			return
-		}
-		if len(errs) > 0 {
-			c.Report(rt, "C07|stream|error-published", fmt.Sprintf("%s: the connection never failed, yet %v arrived on Error", desc, errs), rep)
 			return
 		}
 		if rejBeforeLast > 50 {
